@@ -990,4 +990,347 @@ theorem limits_needed_counterexample :
     norm_num [negLimitInst, emptyInst] at h4
     linarith
 
+/-! ## lowering a retail waste percentage
+
+The distribution-side wastes are applied before the LP is built and do not appear in `Inp`;
+the retail wastes `wStored`, `wCrop`, `wSeaweed` (…) are the divisors `1 − w/100` of the gross-up.
+With a lower waste people keep drawing the same gross amount and receive more. -/
+
+section Waste
+
+/-- the same gross draw at a lower waste: `(keep w'/keep w · v)/(1 − w'/100) = v/(1 − w/100)` -/
+theorem grossUp_rescale {w w' : K} (hw' : w' ≤ w) (hw : w < 100) (v : K) :
+    grossUp (keep w' / keep w * v) w' = grossUp v w := by
+  have hk := (keep_pos hw).ne'
+  have hk' := (keep_pos (lt_of_le_of_lt hw' hw)).ne'
+  rw [grossUp_eq, grossUp_eq]
+  show keep w' / keep w * v / keep w' = v / keep w
+  rw [div_mul_eq_mul_div, div_div, mul_comm (keep w) (keep w'), ← div_div, mul_div_assoc,
+    mul_div_cancel₀ _ hk']
+
+/-- people receive `r` times as much stored food (the gross draw is unchanged); the month's percent fed
+    rises by `g m` -/
+def boostStored (x : Var → K) (r : K) (g : Nat → K) : Var → K
+  | .mv .sfHumans m => r * x (.mv .sfHumans m)
+  | .mv .consumedKcals m => x (.mv .consumedKcals m) + g m
+  | v => x v
+
+theorem mono_wasteStored (i : Inp K) (w' : K) (hw' : w' ≤ i.wStored) (hw : i.wStored < 100)
+    (hb : 0 ≤ i.billionKcalsNeeded) (hlim : 0 ≤ i.limSwH ∧ 0 ≤ i.limScpH ∧ 0 ≤ i.limCsH)
+    (x : Var → K) (h : Feasible (buildLP i .toHumans) x) :
+    ∃ x', Feasible (buildLP { i with wStored := w' } .toHumans) x' ∧ x .objective ≤ x' .objective := by
+  rw [feasible_toHumans_iff] at h
+  by_cases hon : i.addStored = true
+  swap
+  · refine ⟨x, feasible_toHumans_iff.mpr ?_, le_rfl⟩
+    exact ⟨h.nonneg, h.seaweed, h.crops, fun hon' => absurd hon' hon, h.meat, h.scp, h.cs,
+      h.general, h.objective⟩
+  have hk := keep_pos hw
+  have hk' : 0 < keep w' := keep_pos (lt_of_le_of_lt hw' hw)
+  have hr : 1 ≤ keep w' / keep i.wStored := by
+    rw [le_div_iff₀ hk, one_mul]
+    unfold keep
+    have : w' / 100 ≤ i.wStored / 100 := div_le_div_of_nonneg_right hw' (by norm_num)
+    linarith
+  let r : K := keep w' / keep i.wStored
+  let g : Nat → K := fun m => (r - 1) * x (.mv .sfHumans m) / i.billionKcalsNeeded * 100
+  have hg : ∀ m, 0 ≤ g m := fun m =>
+    mul_nonneg (div_nonneg (mul_nonneg (sub_nonneg.mpr hr) (h.nonneg _)) hb) (by norm_num)
+  have hcons : ∀ m, x (.mv .consumedKcals m) ≤ boostStored x r g (.mv .consumedKcals m) :=
+    fun m => le_add_of_nonneg_right (hg m)
+  have hgross : ∀ m, grossUp (r * x (.mv .sfHumans m)) w' = grossUp (x (.mv .sfHumans m)) i.wStored :=
+    fun m => grossUp_rescale hw' hw _
+  refine ⟨boostStored x r g, feasible_toHumans_iff.mpr ?_, le_rfl⟩
+  refine ⟨?_, h.seaweed, h.crops, ?_, h.meat, h.scp, h.cs, ?_, ?_⟩
+  · intro v
+    cases v with
+    | mv k m =>
+      cases k <;> first
+        | exact h.nonneg _
+        | exact mul_nonneg (le_trans zero_le_one hr) (h.nonneg _)
+        | exact add_nonneg (h.nonneg _) (hg m)
+    | objective => exact h.nonneg _
+    | objectiveBest => exact h.nonneg _
+  · -- the stored-food ledger: the same gross amount is drawn
+    intro _ m hm
+    have H := h.stored hon m hm
+    have hE : ∀ k, StoredEatenEq i x k → StoredEatenEq { i with wStored := w' } (boostStored x r g) k := by
+      intro k hk
+      unfold StoredEatenEq at hk ⊢
+      show x (.mv .sfEnd k) = x (.mv .sfStart k) - grossUp (r * x (.mv .sfHumans k)) w'
+        - x (.mv .sfFeed k) - x (.mv .sfBiofuel k)
+      rw [hgross, hk]
+    unfold StoredSpec at H ⊢
+    cases hsb : i.storeBetweenYears
+    · rw [hsb] at H
+      simp only [Bool.false_eq_true, if_false] at H
+      show if false = true then _ else _
+      simp only [Bool.false_eq_true, if_false]
+      split_ifs at H ⊢
+      · exact ⟨H.1, hE 0 H.2⟩
+      · obtain ⟨e1, e2, e3, e4⟩ := H
+        refine ⟨?_, e2, e3, e4⟩
+        show r * x (.mv .sfHumans m) = 0
+        rw [e1, mul_zero]
+      · exact ⟨hE m H.1, H.2⟩
+    · rw [hsb] at H
+      simp only [if_true] at H
+      show if true = true then _ else _
+      simp only [if_true]
+      exact ⟨H.1, hE m H.2⟩
+  · intro m hm
+    obtain ⟨H1, H2, H3, H4, H5⟩ := h.general m hm
+    refine ⟨H1, ?_, ?_, ?_, ?_⟩
+    · show x (.mv .consumedKcals m) + (r - 1) * x (.mv .sfHumans m) / i.billionKcalsNeeded * 100 =
+        ((if i.addStored = true then r * x (.mv .sfHumans m) else 0)
+          + X x i.addOutdoor .cropHumans m
+          + X x i.addSeaweed .swHumans m * i.seaweedKcals + at' i.milk m + X x i.addMeat .meatEaten m
+          + X x i.addCs .csHumans m + X x i.addScp .scpHumans m + at' i.greenhouse m + at' i.fish m)
+          / i.billionKcalsNeeded * 100.0
+      have hX : X x i.addStored .sfHumans m = x (.mv .sfHumans m) := by
+        unfold X; rw [hon]; rfl
+      rw [H2, hon, sci_100]
+      unfold humanTotal
+      rw [hX]
+      simp only [if_true]
+      ring
+    · exact intake_of_consumed_le H3 rfl rfl rfl rfl rfl rfl rfl rfl (hcons m) hlim.1 hb
+    · exact intake_of_consumed_le H4 rfl rfl rfl rfl rfl rfl rfl rfl (hcons m) hlim.2.1 hb
+    · exact intake_of_consumed_le H5 rfl rfl rfl rfl rfl rfl rfl rfl (hcons m) hlim.2.2 hb
+  · intro m hm
+    exact le_trans (h.objective m hm) (hcons m)
+
+/-- people receive `r` times as much crops (the gross draw is unchanged); the month's percent fed
+    rises by `g m` -/
+def boostCrops (x : Var → K) (r : K) (g : Nat → K) : Var → K
+  | .mv .cropHumans m => r * x (.mv .cropHumans m)
+  | .mv .consumedKcals m => x (.mv .consumedKcals m) + g m
+  | v => x v
+
+theorem mono_wasteCrop (i : Inp K) (w' : K) (hw' : w' ≤ i.wCrop) (hw : i.wCrop < 100)
+    (hb : 0 ≤ i.billionKcalsNeeded) (hlim : 0 ≤ i.limSwH ∧ 0 ≤ i.limScpH ∧ 0 ≤ i.limCsH)
+    (x : Var → K) (h : Feasible (buildLP i .toHumans) x) :
+    ∃ x', Feasible (buildLP { i with wCrop := w' } .toHumans) x' ∧ x .objective ≤ x' .objective := by
+  rw [feasible_toHumans_iff] at h
+  by_cases hon : i.addOutdoor = true
+  swap
+  · refine ⟨x, feasible_toHumans_iff.mpr ?_, le_rfl⟩
+    exact ⟨h.nonneg, h.seaweed, fun hon' => absurd hon' hon, h.stored, h.meat, h.scp, h.cs,
+      h.general, h.objective⟩
+  have hk := keep_pos hw
+  have hk' : 0 < keep w' := keep_pos (lt_of_le_of_lt hw' hw)
+  have hr : 1 ≤ keep w' / keep i.wCrop := by
+    rw [le_div_iff₀ hk, one_mul]
+    unfold keep
+    have : w' / 100 ≤ i.wCrop / 100 := div_le_div_of_nonneg_right hw' (by norm_num)
+    linarith
+  let r : K := keep w' / keep i.wCrop
+  let g : Nat → K := fun m => (r - 1) * x (.mv .cropHumans m) / i.billionKcalsNeeded * 100
+  have hg : ∀ m, 0 ≤ g m := fun m =>
+    mul_nonneg (div_nonneg (mul_nonneg (sub_nonneg.mpr hr) (h.nonneg _)) hb) (by norm_num)
+  have hcons : ∀ m, x (.mv .consumedKcals m) ≤ boostCrops x r g (.mv .consumedKcals m) :=
+    fun m => le_add_of_nonneg_right (hg m)
+  have hgross : ∀ m, grossUp (r * x (.mv .cropHumans m)) w' = grossUp (x (.mv .cropHumans m)) i.wCrop :=
+    fun m => grossUp_rescale hw' hw _
+  refine ⟨boostCrops x r g, feasible_toHumans_iff.mpr ?_, le_rfl⟩
+  refine ⟨?_, h.seaweed, ?_, h.stored, h.meat, h.scp, h.cs, ?_, ?_⟩
+  · intro v
+    cases v with
+    | mv k m =>
+      cases k <;> first
+        | exact h.nonneg _
+        | exact mul_nonneg (le_trans zero_le_one hr) (h.nonneg _)
+        | exact add_nonneg (h.nonneg _) (hg m)
+    | objective => exact h.nonneg _
+    | objectiveBest => exact h.nonneg _
+  · -- the crop ledger: the same gross amount is consumed
+    intro _ m hm
+    obtain ⟨H1, H2⟩ := h.crops hon m hm
+    refine ⟨?_, H2⟩
+    show x (.mv .cropConsumed m) = grossUp (r * x (.mv .cropHumans m)) w'
+      + x (.mv .cropBiofuel m) + x (.mv .cropFeed m)
+    rw [hgross, H1]
+  · intro m hm
+    obtain ⟨H1, H2, H3, H4, H5⟩ := h.general m hm
+    refine ⟨H1, ?_, ?_, ?_, ?_⟩
+    · show x (.mv .consumedKcals m) + (r - 1) * x (.mv .cropHumans m) / i.billionKcalsNeeded * 100 =
+        (X x i.addStored .sfHumans m
+          + (if i.addOutdoor = true then r * x (.mv .cropHumans m) else 0)
+          + X x i.addSeaweed .swHumans m * i.seaweedKcals + at' i.milk m + X x i.addMeat .meatEaten m
+          + X x i.addCs .csHumans m + X x i.addScp .scpHumans m + at' i.greenhouse m + at' i.fish m)
+          / i.billionKcalsNeeded * 100.0
+      have hX : X x i.addOutdoor .cropHumans m = x (.mv .cropHumans m) := by
+        unfold X; rw [hon]; rfl
+      rw [H2, hon, sci_100]
+      unfold humanTotal
+      rw [hX]
+      simp only [if_true]
+      ring
+    · exact intake_of_consumed_le H3 rfl rfl rfl rfl rfl rfl rfl rfl (hcons m) hlim.1 hb
+    · exact intake_of_consumed_le H4 rfl rfl rfl rfl rfl rfl rfl rfl (hcons m) hlim.2.1 hb
+    · exact intake_of_consumed_le H5 rfl rfl rfl rfl rfl rfl rfl rfl (hcons m) hlim.2.2 hb
+  · intro m hm
+    exact le_trans (h.objective m hm) (hcons m)
+
+/-! ### seaweed: the human intake caps stand in the way -/
+
+/-- people receive `r` times as much seaweed (the gross harvest is unchanged) -/
+def boostSeaweed (x : Var → K) (r : K) (g : Nat → K) : Var → K
+  | .mv .swHumans m => r * x (.mv .swHumans m)
+  | .mv .consumedKcals m => x (.mv .consumedKcals m) + g m
+  | v => x v
+
+/-- lowering the retail waste of seaweed, *provided* the larger amount people then receive still
+    respects seaweed's two human intake caps (`hcaps`); without that proviso the statement is false:
+    `mono_wasteSeaweed_counterexample` -/
+theorem mono_wasteSeaweed_partial (i : Inp K) (w' : K) (hw' : w' ≤ i.wSeaweed) (hw : i.wSeaweed < 100)
+    (hb : 0 ≤ i.billionKcalsNeeded) (hkc : 0 ≤ i.seaweedKcals)
+    (hlim : 0 ≤ i.limScpH ∧ 0 ≤ i.limCsH)
+    (x : Var → K) (h : Feasible (buildLP i .toHumans) x)
+    (hcaps : i.addSeaweed = true → ∀ m, m < i.nmonths →
+      (1 - w' / 100) / (1 - i.wSeaweed / 100) * x (.mv .swHumans m) * i.seaweedKcals
+        ≤ i.limSwH / 100.0 * (i.pop * i.kcalsMonthly / 1e9) ∧
+      (1 - w' / 100) / (1 - i.wSeaweed / 100) * x (.mv .swHumans m) * i.seaweedKcals
+        ≤ i.limSwH / 100.0 *
+          ((x (.mv .consumedKcals m)
+            + ((1 - w' / 100) / (1 - i.wSeaweed / 100) - 1) * x (.mv .swHumans m) * i.seaweedKcals
+                / i.billionKcalsNeeded * 100) * i.billionKcalsNeeded / 100.0)) :
+    ∃ x', Feasible (buildLP { i with wSeaweed := w' } .toHumans) x' ∧ x .objective ≤ x' .objective := by
+  rw [feasible_toHumans_iff] at h
+  by_cases hon : i.addSeaweed = true
+  swap
+  · refine ⟨x, feasible_toHumans_iff.mpr ?_, le_rfl⟩
+    refine ⟨h.nonneg, fun hon' => absurd hon' hon, h.crops, h.stored, h.meat, h.scp, h.cs, ?_,
+      h.objective⟩
+    intro m hm
+    obtain ⟨H1, H2, H3, H4, H5⟩ := h.general m hm
+    exact ⟨H1, H2, fun hon' => absurd hon' hon, H4, H5⟩
+  have hk := keep_pos hw
+  have hr : 1 ≤ keep w' / keep i.wSeaweed := by
+    rw [le_div_iff₀ hk, one_mul]
+    unfold keep
+    have : w' / 100 ≤ i.wSeaweed / 100 := div_le_div_of_nonneg_right hw' (by norm_num)
+    linarith
+  let r : K := keep w' / keep i.wSeaweed
+  let g : Nat → K := fun m =>
+    (r - 1) * x (.mv .swHumans m) * i.seaweedKcals / i.billionKcalsNeeded * 100
+  have hg : ∀ m, 0 ≤ g m := fun m =>
+    mul_nonneg (div_nonneg (mul_nonneg (mul_nonneg (sub_nonneg.mpr hr) (h.nonneg _)) hkc) hb)
+      (by norm_num)
+  have hcons : ∀ m, x (.mv .consumedKcals m) ≤ boostSeaweed x r g (.mv .consumedKcals m) :=
+    fun m => le_add_of_nonneg_right (hg m)
+  have hgross : ∀ m, grossUp (r * x (.mv .swHumans m)) w' = grossUp (x (.mv .swHumans m)) i.wSeaweed :=
+    fun m => grossUp_rescale hw' hw _
+  refine ⟨boostSeaweed x r g, feasible_toHumans_iff.mpr ?_, le_rfl⟩
+  refine ⟨?_, ?_, h.crops, h.stored, h.meat, h.scp, h.cs, ?_, ?_⟩
+  · intro v
+    cases v with
+    | mv k m =>
+      cases k <;> first
+        | exact h.nonneg _
+        | exact mul_nonneg (le_trans zero_le_one hr) (h.nonneg _)
+        | exact add_nonneg (h.nonneg _) (hg m)
+    | objective => exact h.nonneg _
+    | objectiveBest => exact h.nonneg _
+  · -- the seaweed ledger: the same gross harvest
+    intro _ m hm
+    obtain ⟨hbd, hl⟩ := h.seaweed hon m hm
+    refine ⟨hbd, ?_⟩
+    by_cases hm0 : m = 0
+    · subst hm0
+      simp only [if_true] at hl ⊢
+      obtain ⟨e1, e2, e3, e4, e5⟩ := hl
+      refine ⟨e1, e2, ?_, e4, e5⟩
+      show r * x (.mv .swHumans 0) = 0
+      rw [e3, mul_zero]
+    · simp only [hm0, if_false] at hl ⊢
+      show x (.mv .swWet m) =
+        x (.mv .swWet (m - 1)) * (1 + at' i.growth m / 100.0)
+          - grossUp (r * x (.mv .swHumans m)) w' - x (.mv .swFeed m) - x (.mv .swBiofuel m)
+          - (x (.mv .usedArea m) - x (.mv .usedArea (m - 1))) * i.minDensity * (i.harvestLoss / 100.0)
+      rw [hgross, hl]
+      rfl
+  · intro m hm
+    obtain ⟨H1, H2, H3, H4, H5⟩ := h.general m hm
+    refine ⟨H1, ?_, ?_, ?_, ?_⟩
+    · show x (.mv .consumedKcals m)
+          + (r - 1) * x (.mv .swHumans m) * i.seaweedKcals / i.billionKcalsNeeded * 100 =
+        (X x i.addStored .sfHumans m + X x i.addOutdoor .cropHumans m
+          + (if i.addSeaweed = true then r * x (.mv .swHumans m) else 0) * i.seaweedKcals
+          + at' i.milk m + X x i.addMeat .meatEaten m
+          + X x i.addCs .csHumans m + X x i.addScp .scpHumans m + at' i.greenhouse m + at' i.fish m)
+          / i.billionKcalsNeeded * 100.0
+      have hX : X x i.addSeaweed .swHumans m = x (.mv .swHumans m) := by
+        unfold X; rw [hon]; rfl
+      rw [H2, hon, sci_100]
+      unfold humanTotal
+      rw [hX]
+      simp only [if_true]
+      ring
+    · intro _
+      obtain ⟨c1, c2⟩ := hcaps hon m hm
+      exact ⟨⟨c1, c2⟩, (H3 hon).2.1, (H3 hon).2.2⟩
+    · exact intake_of_consumed_le H4 rfl rfl rfl rfl rfl rfl rfl rfl (hcons m) hlim.1 hb
+    · exact intake_of_consumed_le H5 rfl rfl rfl rfl rfl rfl rfl rfl (hcons m) hlim.2 hb
+  · intro m hm
+    exact le_trans (h.objective m hm) (hcons m)
+
+/-- 1 t of seaweed on 1 km² at the density ceiling, doubling in month 1, half of the harvest wasted
+    at retail; people may eat at most 0.5 (100 % of a need of 0.5) -/
+def swCapInst : Inp ℚ :=
+  { emptyInst with nmonths := 2, addSeaweed := true, pop := 1, kcalsMonthly := 500000000,
+                   seaweedKcals := 1, initialSeaweed := 1, maxDensity := 1, initialBuiltArea := 1,
+                   builtArea := [1, 1], growth := [0, 100], limSwH := 100, wSeaweed := 50 }
+
+/-- harvest 1 t in month 1; after waste people eat 0.5 -/
+def swCapX : Var → ℚ
+  | .mv .swWet m => [1, 1].getD m 0
+  | .mv .usedArea m => [1, 1].getD m 0
+  | .mv .swHumans m => [0, 1 / 2].getD m 0
+  | .mv .consumedKcals m => [0, 1 / 2].getD m 0
+  | _ => 0
+
+theorem swCapX_rows : (buildLP swCapInst .toHumans).all (holdsB swCapX) = true := by decide +kernel
+
+theorem swCapX_nonneg : ∀ v, 0 ≤ swCapX v := by
+  intro v
+  cases v with
+  | mv k m =>
+    cases k <;> first
+      | exact le_rfl
+      | exact getD_nonneg _ (by decide +kernel) m
+  | objective => exact le_rfl
+  | objectiveBest => exact le_rfl
+
+/-- lowering seaweed's retail waste can make the human round infeasible: the month-1 harvest of
+    1 t is compulsory (density ceiling), at 50 % waste people receive 0.5 — exactly their intake
+    cap; with no waste they would have to eat 1 -/
+theorem mono_wasteSeaweed_counterexample :
+    ∃ (i : Inp ℚ) (w' : ℚ) (x : Var → ℚ), 0 ≤ w' ∧ w' ≤ i.wSeaweed ∧ i.wSeaweed < 100 ∧
+      0 < i.billionKcalsNeeded ∧ (0 ≤ i.limSwH ∧ 0 ≤ i.limScpH ∧ 0 ≤ i.limCsH) ∧
+      0 ≤ i.seaweedKcals ∧ Feasible (buildLP i .toHumans) x ∧
+      ¬ ∃ x', Feasible (buildLP { i with wSeaweed := w' } .toHumans) x' := by
+  refine ⟨swCapInst, 0, swCapX, le_rfl, by decide +kernel, by decide +kernel, by decide +kernel,
+    ⟨by decide +kernel, by decide +kernel, by decide +kernel⟩, by decide +kernel,
+    ⟨rows_hold_of_all _ _ swCapX_rows, swCapX_nonneg⟩, ?_⟩
+  rintro ⟨x, hx⟩
+  have hs := feasible_toHumans_iff.mp hx
+  have s1 := hs.seaweed rfl 1 (by decide)
+  have s0 := hs.seaweed rfl 0 (by decide)
+  have hle := s1.1.2.1
+  have hl := s1.2
+  have hl0 := s0.2
+  rw [if_neg (by decide)] at hl
+  rw [if_pos rfl] at hl0
+  have w0 : x (.mv .swWet 0) = 1 := hl0.1
+  obtain ⟨-, -, hint, -, -⟩ := hs.general 1 (by decide)
+  obtain ⟨⟨c1, -⟩, sF, sB⟩ := hint rfl
+  have nF := hs.nonneg (.mv .swFeed 1)
+  have nB := hs.nonneg (.mv .swBiofuel 1)
+  unfold seaweedLedger grossUp at hl
+  norm_num [swCapInst, emptyInst, at', w0] at hl hle c1 sF sB
+  linarith
+
+end Waste
+
 end Allfed.Proofs.Perturb
